@@ -379,13 +379,19 @@ func (c *FnCtx) applyContract(spec *FuncSpec, sig *types.Signature, names []stri
 		c.oblige("pre", fmt.Sprintf("%s.%d", calleeName, i+1), *reach, tv.t, "precondition of "+spec.Name+": "+cl.Text)
 		c.assume(*reach, tv.t)
 	}
-	// modifies: havoc
+	// modifies: all targets are evaluated in the pre-state, then havocked
+	var targets []TV
+	preEnv := *env
+	preEnv.st = pre
 	for _, m := range spec.Modifies {
-		tv, err := c.evalSpec(m.E, env)
+		tv, err := c.evalSpec(m.E, &preEnv)
 		if err != nil {
 			c.abort("callee %s modifies: %v", spec.Name, err)
 			return nil
 		}
+		targets = append(targets, tv)
+	}
+	for _, tv := range targets {
 		c.havocTarget(st, tv)
 	}
 	// results
@@ -579,6 +585,18 @@ func (c *FnCtx) paramSpecFor(v ssa.Value) *ParamSpec {
 	if p, ok := v.(*ssa.Parameter); ok {
 		if ps, ok := c.spec.ParamSpecs[p.Name()]; ok {
 			return ps
+		}
+	}
+	// a function stored in a struct field: "param .fieldName: ..."
+	if u, ok := v.(*ssa.UnOp); ok {
+		if fa, ok := u.X.(*ssa.FieldAddr); ok {
+			if pt, ok := fa.X.Type().Underlying().(*types.Pointer); ok {
+				if stt, ok := pt.Elem().Underlying().(*types.Struct); ok {
+					if ps, ok := c.spec.ParamSpecs["."+stt.Field(fa.Field).Name()]; ok {
+						return ps
+					}
+				}
+			}
 		}
 	}
 	return nil
